@@ -254,6 +254,24 @@ Proof. exact (@HelperCoh.helper_history_independent). Qed.
 Print Assumptions C15_helper_history_independent.
 End M_C15_helper_history_independent.
 
+(* with enough fuel a call succeeds from any coherent dictionary *)
+Module M_C15_helper_total.
+Import HelperCoh.
+Theorem C15_helper_total :
+  forall fuel : nat, CallTot (Z.of_nat fuel) (Binomial.EmS fuel).
+Proof. exact (@HelperCoh.EmS_total). Qed.
+Print Assumptions C15_helper_total.
+End M_C15_helper_total.
+
+(* likewise for optimal_steps_mixed *)
+Module M_C15_mixhelper_total.
+Import MixHelperCoh.
+Theorem C15_mixhelper_total :
+  forall fuel : nat, CallTot (Z.of_nat fuel) (Binomial.OsmS fuel).
+Proof. exact (@MixHelperCoh.OsmS_total). Qed.
+Print Assumptions C15_mixhelper_total.
+End M_C15_mixhelper_total.
+
 (* THE PUBLISHED HELPER IS THE SOURCE: HelperGenSpec.oes_shape / osb_shape are the Gallina functions harness/translate.py (HelperTr) renders from optimal_extra_steps (behind cache_step: the clamp s = min(s, n - 1), the dictionary being a pure memo) and optimal_steps_binomial of multistage.py -- the recursion on explicit fuel, `for i in range(1, n)` as py_forB over the optional running best; Gen/HelperGen.v re-translates the current source on every run and proves the result equal to these terms by conversion.  The shape is equal, for every fuel and argument, to BinomDP.Em, the dynamic program C05_chain / C05_gw_main are proved about *)
 Module M_C15_helper_source_is_pure.
 Import HelperGenSpec.
